@@ -1187,7 +1187,11 @@ func (c *ctx) runHistory(r *hx.Rng, tier string, hi int) (string, interface{}) {
 							}
 						}
 					}
-					if h.blocks[x].hdr.TotalQN < ch.TopBlock().TotalQN {
+					// the head is neither a fork block nor at or below the header: the on-chain callback pulled a
+					// waiting orphan in, and the next fork block lost the fork choice against it (lower QN,
+					// or equal QN and lower prove value / hash)
+					hd := h.byHash[ch.TopBlock().Hash]
+					if !contains(seg, hd) && !contains(h.ancestors(se.header), hd) && h.blocks[x].hdr.TotalQN <= ch.TopBlock().TotalQN {
 						return "next-fork-block-lighter-than-pulled-in-orphan"
 					}
 				}
